@@ -404,10 +404,22 @@ structure World where
   fileVer : Nat → Ver
   /-- custom loader `l ≥ 1`: what its `get_pipeline_definition` returns NOW (`none`: it raises) -/
   custom : Nat → Rq → Option Ver
+  /-- the content with this version has a mapping at its top level (a property of the content, so of
+      the version: the worlds of one session agree on it). `false`: `Loader._load_pipeline` rejects
+      it with `PipelineDefinitionError`. -/
+  mapping : Ver → Bool := fun _ => true
+
+/-- the check at the end of `Loader._load_pipeline` ("A pipeline must be a mapping at the top
+    level"): a payload that is not a mapping raises, which the caller sees as a failed look-up -/
+def World.accept (w : World) (x : Option Ver) : Option Ver :=
+  x.bind fun v => if w.mapping v then some v else none
+
+/-- what the loader `l` (0 = the file loader) itself answers now, before the mapping check -/
+def World.raw (w : World) (l : Nat) (r : Rq) : Option Ver :=
+  if l = 0 then (w.resolve r).map w.fileVer else w.custom l r
 
 /-- what an uncached look-up by loader `l` (0 = the file loader) yields now -/
-def World.fresh (w : World) (l : Nat) (r : Rq) : Option Ver :=
-  if l = 0 then (w.resolve r).map w.fileVer else w.custom l r
+def World.fresh (w : World) (l : Nat) (r : Rq) : Option Ver := w.accept (w.raw l r)
 
 structure LState where
   /-- `config.no_cache` -/
@@ -457,18 +469,41 @@ def getLoader (st : LState) (l : Nat) : Nat × Bool × LState :=
                   nextObj := st.nextObj + 1,
                   owner := fun o => if o = st.nextObj then l else st.owner o })
 
-/-- the loader's `get_pipeline_definition` → (definition, was a file parsed, state) -/
+/-- `Loader._load_pipeline`, the creator of the pipeline cache: the loader's
+    `get_pipeline_definition`, THEN the mapping check → (definition, was a file parsed, state).
+    For the file loader the parse is stored by `file_cache` inside `get_pipeline_definition`, that is
+    BEFORE the check: a rejected payload stays in `file_cache` (`files` holds it; every later
+    look-up of that path is served the rejected parse and fails again — `rejected_file_is_remembered`
+    in `Props/C13.lean`, the open finding "malformed top level cached before rejection"). -/
 def loadDef (w : World) (st : LState) (l : Nat) (r : Rq) : Option Ver × Bool × LState :=
   if l = 0 then
     match w.resolve r with
     | none => (none, false, st)
     | some p =>
-      if st.noCache then (some (w.fileVer p), true, st)
+      if st.noCache then (w.accept (some (w.fileVer p)), true, st)
       else match st.files p with
-        | some v => (some v, false, st)
-        | none => (some (w.fileVer p), true,
+        | some v => (w.accept (some v), false, st)
+        | none => (w.accept (some (w.fileVer p)), true,
             { st with files := fun p' => if p' = p then some (w.fileVer p) else st.files p' })
-  else (w.custom l r, false, st)
+  else (w.accept (w.custom l r), false, st)
+
+/-- NOT pypyr as it is: the file loader validating BEFORE `file_cache` stores (the creator handed to
+    `file_cache.get` raises for a non-mapping payload), so that a rejected payload is stored nowhere.
+    `Props/C13.lean` `validating_file_creator_forgets_rejection`. -/
+def loadDefV (w : World) (st : LState) (l : Nat) (r : Rq) : Option Ver × Bool × LState :=
+  if l = 0 then
+    match w.resolve r with
+    | none => (none, false, st)
+    | some p =>
+      if st.noCache then (w.accept (some (w.fileVer p)), true, st)
+      else match st.files p with
+        | some v => (w.accept (some v), false, st)
+        | none =>
+          if w.mapping (w.fileVer p) then
+            (some (w.fileVer p), true,
+              { st with files := fun p' => if p' = p then some (w.fileVer p) else st.files p' })
+          else (none, true, st)
+  else (w.accept (w.custom l r), false, st)
 
 /-- `Loader.get_pipeline` on Loader object `o` → (definition, defMade, fileRead, state) -/
 def getPipeline (w : World) (st : LState) (o l : Nat) (r : Rq) : Option Ver × Bool × Bool × LState :=
